@@ -22,37 +22,37 @@ func init() {
 	run.Props["C01"] = &run.PropSpec{ID: "C01", Level: "exploration",
 		Rule:     "one evaluation = one (pool, asset) reserve-vs-bank equation or one DenomLiquidity equation after a committed block; distinct & non-trivial = the operand tuple (book, bank) of that equation changed since its previous evaluation and was never seen before (hash set)",
 		Monitors: func() []mon.Monitor { return []mon.Monitor{mon.NewC01()} },
-		Plan:     plan([]run.PlanItem{pi("mix", 8), pi("lp-value", 3), pi("swap-batch", 3), pi("forced", 3), pi("rewards", 2), pi("orders", 2)}, []run.PlanItem{pi("mix", 40), pi("lp-value", 12), pi("swap-batch", 12), pi("forced", 12), pi("rewards", 8), pi("orders", 8), pi("faults", 12)}),
+		Plan:     plan([]run.PlanItem{pi("mix", 16), pi("lp-value", 6), pi("swap-batch", 6), pi("forced", 6), pi("rewards", 4), pi("orders", 4)}, []run.PlanItem{pi("mix", 40), pi("lp-value", 12), pi("swap-batch", 12), pi("forced", 12), pi("rewards", 8), pi("orders", 8), pi("faults", 12)}),
 		Assume:   []string{boundsAssume, "donations = successful bank MsgSend to a pool address observed in the block log"}}
 	run.Props["C02"] = &run.PropSpec{ID: "C02", Level: "exploration",
 		Rule:     "one evaluation = one pool's (TotalShares, supply, sum committed, custody) relation after a committed block; distinct = the tuple changed and is new; plus every share mint/burn bank event attributed to its transaction or block phase",
 		Monitors: func() []mon.Monitor { return []mon.Monitor{mon.NewC02()} },
-		Plan:     plan([]run.PlanItem{pi("mix", 8), pi("lp-value", 4), pi("forced", 3), pi("rewards", 2), pi("commit-life", 2)}, []run.PlanItem{pi("mix", 40), pi("lp-value", 16), pi("forced", 12), pi("rewards", 8), pi("commit-life", 8), pi("faults", 12)}),
+		Plan:     plan([]run.PlanItem{pi("mix", 16), pi("lp-value", 8), pi("forced", 6), pi("rewards", 4), pi("commit-life", 4)}, []run.PlanItem{pi("mix", 40), pi("lp-value", 16), pi("forced", 12), pi("rewards", 8), pi("commit-life", 8), pi("faults", 12)}),
 		Assume:   []string{boundsAssume}}
 	run.Props["C06"] = &run.PropSpec{ID: "C06", Level: "exploration",
 		Rule:     "one evaluation = the vault equation TotalValue == cash + sum(debt) after a committed block or after a successful stablestake/leveragelp transaction (post-tx probe); distinct = operand tuple changed and new",
 		Monitors: func() []mon.Monitor { return []mon.Monitor{mon.NewC06()} },
-		Plan:     plan([]run.PlanItem{pi("mix", 6), pi("forced", 4), pi("vault", 6)}, []run.PlanItem{pi("mix", 32), pi("forced", 16), pi("vault", 24), pi("faults", 12)}),
+		Plan:     plan([]run.PlanItem{pi("mix", 12), pi("forced", 8), pi("vault", 12)}, []run.PlanItem{pi("mix", 32), pi("forced", 16), pi("vault", 24), pi("faults", 12)}),
 		Assume:   []string{boundsAssume}}
 	run.Props["C08"] = &run.PropSpec{ID: "C08", Level: "exploration",
 		Rule:     "one evaluation = one position's LP-vs-committed equation, one pool-total-vs-sum equation, the counter equation, or one removed-position residue check after a committed block; distinct = operands changed and new",
 		Monitors: func() []mon.Monitor { return []mon.Monitor{mon.NewC08()} },
-		Plan:     plan([]run.PlanItem{pi("mix", 6), pi("forced", 6), pi("vault", 4)}, []run.PlanItem{pi("mix", 32), pi("forced", 24), pi("vault", 16), pi("faults", 12)}),
+		Plan:     plan([]run.PlanItem{pi("mix", 12), pi("forced", 12), pi("vault", 8)}, []run.PlanItem{pi("mix", 32), pi("forced", 24), pi("vault", 16), pi("faults", 12)}),
 		Assume:   []string{boundsAssume}}
 	run.Props["C09"] = &run.PropSpec{ID: "C09", Level: "exploration",
 		Rule:     "one evaluation = one (pool, side, asset) aggregate-vs-sum relation, one reserve>=custody relation or the counter equation after a committed block; distinct = operands changed and new",
 		Monitors: func() []mon.Monitor { return []mon.Monitor{mon.NewC09()} },
-		Plan:     plan([]run.PlanItem{pi("mix", 6), pi("forced", 6), pi("orders", 4)}, []run.PlanItem{pi("mix", 32), pi("forced", 24), pi("orders", 16), pi("faults", 12)}),
+		Plan:     plan([]run.PlanItem{pi("mix", 12), pi("forced", 12), pi("orders", 8)}, []run.PlanItem{pi("mix", 32), pi("forced", 24), pi("orders", 16), pi("faults", 12)}),
 		Assume:   []string{boundsAssume}}
 	run.Props["C11"] = &run.PropSpec{ID: "C11", Level: "exploration",
 		Rule:     "one evaluation = one (pool, asset) accounted-total equation after a committed block; distinct = (reserve, liabilities, custody) changed and new",
 		Monitors: func() []mon.Monitor { return []mon.Monitor{mon.NewC11()} },
-		Plan:     plan([]run.PlanItem{pi("mix", 6), pi("forced", 6), pi("orders", 3), pi("lp-value", 2)}, []run.PlanItem{pi("mix", 32), pi("forced", 24), pi("orders", 12), pi("lp-value", 8), pi("faults", 12)}),
+		Plan:     plan([]run.PlanItem{pi("mix", 12), pi("forced", 12), pi("orders", 6), pi("lp-value", 4)}, []run.PlanItem{pi("mix", 32), pi("forced", 24), pi("orders", 12), pi("lp-value", 8), pi("faults", 12)}),
 		Assume:   []string{boundsAssume}}
 	run.Props["C12"] = &run.PropSpec{ID: "C12", Level: "exploration",
 		Rule:     "one evaluation = one denom's TotalCommitted-vs-sum equation, one custody inequality, or one (account, denom) lock-up inequality; distinct = operands changed and new. Committed amounts are diffed at every tx / block-phase boundary to build the monitor's own uncommit ledger and the reference lock-up ledger",
 		Monitors: func() []mon.Monitor { return []mon.Monitor{mon.NewC12()} },
-		Plan:     plan([]run.PlanItem{pi("commit-life", 8), pi("mix", 6)}, []run.PlanItem{pi("commit-life", 32), pi("mix", 24), pi("rewards", 8)}),
+		Plan:     plan([]run.PlanItem{pi("commit-life", 16), pi("mix", 12)}, []run.PlanItem{pi("commit-life", 32), pi("mix", 24), pi("rewards", 8)}),
 		Assume:   []string{boundsAssume, "lock-up reference: every increase of committed oracle-pool shares is locked for 3600 s of block time; leveragelp ClosePositions and the leveragelp sweep may override (their justification is C10's)"}}
 	run.Props["C13"] = &run.PropSpec{ID: "C13", Level: "exploration",
 		Rule:     "one evaluation = one reward denom's solvency inequality after a block, one per-block credit-vs-inflow inequality, or one holder's claimable amount that changed at a tx / block-phase boundary; distinct = operands changed and new; plus the drain test (every holder claims in seeded random order)",
@@ -62,7 +62,7 @@ func init() {
 	run.Props["C15"] = &run.PropSpec{ID: "C15", Level: "exploration",
 		Rule:     "one evaluation = one denom's supply after a committed block (delta explained by the block's bank mint/burn events, rule per denom class) or one sum-of-balances equation; distinct = supply value changed and new; every mint/burn event is attributed to its tx / block phase",
 		Monitors: func() []mon.Monitor { return []mon.Monitor{mon.NewC15()} },
-		Plan:     plan([]run.PlanItem{pi("mix", 6), pi("commit-life", 4), pi("rewards", 4)}, []run.PlanItem{pi("mix", 32), pi("commit-life", 16), pi("rewards", 16)}),
+		Plan:     plan([]run.PlanItem{pi("mix", 12), pi("commit-life", 8), pi("rewards", 8)}, []run.PlanItem{pi("mix", 32), pi("commit-life", 16), pi("rewards", 16)}),
 		Assume:   []string{boundsAssume, "IBC vouchers are observed only as 'unchanged' (no counterparty chain in the sandbox)"}}
 	run.Props["C18"] = &run.PropSpec{ID: "C18", Level: "fault_enumeration",
 		Rule:     "one evaluation = one block driven through FinalizeBlock+Commit (error / recovered panic recorded by the driver); distinct = (height, AppHash) pairs; base histories x enumerated fault schedules (oracle outages, block-time gaps, parameter-edge governance)",
@@ -77,17 +77,17 @@ func init() {
 	run.Props["C14"] = &run.PropSpec{ID: "C14", Level: "exploration",
 		Rule:     "one evaluation = one successful vest / claim / cancel / vest-now transaction of an observed account checked against the monitor's own linear-schedule reference (entries and balances snapshotted by the pre-message probe, compared in the post-tx probe), or one conservation equation; distinct = (op, account, entries before -> after) never seen before",
 		Monitors: func() []mon.Monitor { return []mon.Monitor{mon.NewC14()} },
-		Plan:     plan([]run.PlanItem{pi("commit-life", 10), pi("vest-edge", 4)}, []run.PlanItem{pi("commit-life", 48), pi("vest-edge", 12), pi("replicas", 4)}),
+		Plan:     plan([]run.PlanItem{pi("commit-life", 20), pi("vest-edge", 8)}, []run.PlanItem{pi("commit-life", 48), pi("vest-edge", 12), pi("replicas", 4)}),
 		Assume:   []string{boundsAssume, "single-message transactions for the observed accounts (the harness only sends those)"}}
 	run.Props["C16"] = &run.PropSpec{ID: "C16", Level: "exploration",
 		Rule:     "one evaluation = one GetAssetPrice / GetAssetPriceFromDenom lookup (after every commit and at the pre-message probe of every non-oracle message) compared with the reference map, one feed message judged against the reference feeder set, or one full store-vs-reference comparison; distinct = (asked name, returned entry) changed and new",
 		Monitors: func() []mon.Monitor { return []mon.Monitor{mon.NewC16()} },
-		Plan:     plan([]run.PlanItem{pi("oracle-names", 12)}, []run.PlanItem{pi("oracle-names", 48)}),
+		Plan:     plan([]run.PlanItem{pi("oracle-names", 24)}, []run.PlanItem{pi("oracle-names", 48)}),
 		Assume:   []string{boundsAssume, "reference = successful feed messages observed at the post-tx probe + the end-block expiry rule with the parameters read from state; feeder-set changes executed by governance are mirrored by reading the feeder store after the block"}}
 	run.Props["C04"] = &run.PropSpec{ID: "C04", Level: "exploration",
 		Rule:     "one evaluation = one swap request of an attributable sender/recipient (addresses used by exactly one request in the block): balances snapshotted before the message, after the tx, and immediately before/after the AMM end-blocker; the deltas must match the 'executed' or the 'nothing' pattern; plus idle-block and queue-empty checks; distinct = (msg, sender, stated amounts, sender delta, recipient delta) never seen before",
 		Monitors: func() []mon.Monitor { return []mon.Monitor{mon.NewC04()} },
-		Plan:     plan([]run.PlanItem{pi("swap-batch", 12), pi("mix", 4)}, []run.PlanItem{pi("swap-batch", 48), pi("mix", 16)}),
+		Plan:     plan([]run.PlanItem{pi("swap-batch", 24), pi("mix", 8)}, []run.PlanItem{pi("swap-batch", 48), pi("mix", 16)}),
 		Assume:   []string{boundsAssume, "a request is judged only if its sender and recipient take part in no other swap request of the same block (single-message txs); tradeshield-executed swaps are not judged here"}}
 	run.Props["C10"] = &run.PropSpec{ID: "C10", Level: "exploration",
 		Rule:     "one evaluation = one (position, close-positions entry or sweep visit): the implementation's own health after the handler's interest/funding update, the safety factor and the trigger comparison measured on a branch immediately before that entry's turn (request list replayed entry by entry), against the before/after diff of every position and owner balance; or one successful open / consolidation / order-executed open (stored and recomputed health vs safety factor); distinct = (position, step, health, trigger, outcome) new",
@@ -97,7 +97,7 @@ func init() {
 	run.Props["C20"] = &run.PropSpec{ID: "C20", Level: "exploration",
 		Rule:     "one evaluation = one (order, execution request) with the trigger condition evaluated by the monitor from the market price the handler reads, or one per-owner wallet+escrow conservation equation around a tradeshield transaction of anyone; distinct = (order, height, trigger, outcome) or (owner, height, funds) new",
 		Monitors: func() []mon.Monitor { return []mon.Monitor{mon.NewC20()} },
-		Plan:     plan([]run.PlanItem{pi("orders", 12)}, []run.PlanItem{pi("orders", 48)}),
+		Plan:     plan([]run.PlanItem{pi("orders", 24)}, []run.PlanItem{pi("orders", 48)}),
 		Assume:   []string{boundsAssume, "market price read with the same exported functions the handlers use (amm.CalculateUSDValue, perpetual.GetAssetPrice); single-message transactions"}}
 	run.Props["C17"] = &run.PropSpec{ID: "C17", Level: "exploration",
 		Rule:     "enumeration of every /elys. sdk.Msg registered by the running app (signer field from cosmos.msg.v1.signer; gated = field named authority + explicit table for x/parameter). One evaluation = one (gated message, non-authorised sender) handler call on a discarded branch with the digest of all stores compared before/after, or one such message / owner-scoped attack sent through a real block (substitution twin AppHash equality); distinct = (message type, sender class, sender, state)",
@@ -107,16 +107,16 @@ func init() {
 	run.Props["C03"] = &run.PropSpec{ID: "C03", Level: "exploration",
 		Rule:     "one evaluation = one generated (pool, trade) case run through the real Pool.SwapOutAmtGivenIn / SwapInAmtGivenOut and compared with the exact integer weighted-product inequality (constant product: reserves log-uniform in [1,1e18], reduced weights 1..64, fee in [0,2%] x discount, trade from 1 unit to multiples of the reserve; derived round-trip and split-trade checks) or with value-in >= value-out at the fake oracle prices (oracle pools: accounted balances on/off, external-liquidity ratio 1..100, weight-breaking params over their range); plus, on the full app, the value the oracle pool pays vs receives in every AMM end-blocker; distinct = the generated tuple",
 		Monitors: func() []mon.Monitor { return []mon.Monitor{mon.NewC03()} },
-		Plan:     plan([]run.PlanItem{pi("pure-amm", 12), pi("swap-batch", 4)}, []run.PlanItem{pi("pure-amm", 48), pi("swap-batch", 16), pi("mix", 8)}),
+		Plan:     plan([]run.PlanItem{pi("pure-amm", 24), pi("swap-batch", 8)}, []run.PlanItem{pi("pure-amm", 48), pi("swap-batch", 16), pi("mix", 8)}),
 		Assume:   []string{"reserves <= 1e18 for the one-base-unit verdict; allowance 1 unit (equal weights) or 1e-8 of the reserve + 1 (unequal weights), as the property grants", "the two keeper interfaces the pool methods take (oracle price table, accounted-balance table) are faked in the pure part"}}
 	run.Props["C05"] = &run.PropSpec{ID: "C05", Level: "exploration",
 		Rule:     "one evaluation = one generated (pool, join or exit) case through the real Pool.JoinPool / ExitPool (constant product 2-4 assets, weights 1..16, deposits from dust to multiples of the pool, requested shares from dust to all; oracle pools with a fake price table) compared with exact integer per-share inequalities, the value function prod(B^w)/S, join-then-exit round trips and the book-consistency / positive-reserve rules; plus, on the full app, per-share value of the remaining liquidity around every join / exit; distinct = the generated tuple",
 		Monitors: func() []mon.Monitor { return []mon.Monitor{mon.NewC05()} },
-		Plan:     plan([]run.PlanItem{pi("pure-shares", 12), pi("lp-value", 4)}, []run.PlanItem{pi("pure-shares", 48), pi("lp-value", 16), pi("mix", 8)}),
+		Plan:     plan([]run.PlanItem{pi("pure-shares", 24), pi("lp-value", 8)}, []run.PlanItem{pi("pure-shares", 48), pi("lp-value", 16), pi("mix", 8)}),
 		Assume:   []string{"allowance one base unit per asset, or 1e-8 of the reserve + 1 for single-asset joins of weighted pools, as the property grants", "the two keeper interfaces the pool methods take are faked in the pure part; app part values oracle pools at the oracle prices and accounted balances in force"}}
 	run.Props["C07"] = &run.PropSpec{ID: "C07", Level: "exploration",
 		Rule:     "one evaluation = the redemption rate at one tx / block-phase boundary compared (exact rationals) with the previous one, one bond / unbond judged against the fair conversion at the pre-message rate, one other holder's redeemable value around a bond / unbond, one successful borrow against the 90 % cap on the pre-message state, or one bond-then-unbond round trip of the observed lender; distinct = operands changed and new; plus the pure conversion grid",
 		Monitors: func() []mon.Monitor { return []mon.Monitor{mon.NewC07()} },
-		Plan:     plan([]run.PlanItem{pi("vault", 10), pi("mix", 3)}, []run.PlanItem{pi("vault", 40), pi("mix", 12), pi("forced", 8)}),
+		Plan:     plan([]run.PlanItem{pi("vault", 20), pi("mix", 6)}, []run.PlanItem{pi("vault", 40), pi("mix", 12), pi("forced", 8)}),
 		Assume:   []string{boundsAssume, "rounding allowance: one share's worth (ceil of the rate), as the property grants; redemption rates >= 1"}}
 }
